@@ -329,7 +329,8 @@ func ShapesProfile(tier, profile string) []*Pkg {
 					if ci > 0 && !liteLeaves[lf.name] {
 						continue
 					}
-					if ci == 3 || (ci >= 4 && !(lf.name == "int32" || lf.name == "string")) || (ci >= 4 && cx != "struct") {
+					nestedRecs := ci == 4 && cx == "struct" && (lf.name == "Fixed" || lf.name == "Msg" || lf.name == "StrS")
+					if !nestedRecs && (ci == 3 || (ci >= 4 && !(lf.name == "int32" || lf.name == "string")) || (ci >= 4 && cx != "struct")) {
 						continue
 					}
 				}
@@ -382,6 +383,19 @@ func ShapesProfile(tier, profile string) []*Pkg {
 		}
 		p := &Pkg{Schema: &Schema{Defs: []*Def{d}}, Leaf: "string", Ctor: "long-strings", Context: cx, LongStr: true}
 		p.Shape = "long strings (0, 8, 9, 17 bytes) before 8-byte scalars in a " + cx
+		out = append(out, p)
+	}
+	// wide records: more than 256 bytes of consecutive fixed-size fields (size
+	// arithmetic done in a narrow type overflows here and nowhere else)
+	for _, cx := range []string{"struct", "rostruct"} {
+		var fields []Field
+		for i := 0; i < 17; i++ {
+			fields = append(fields, Field{Name: fmt.Sprintf("g%d", i), Type: prim("guid")})
+		}
+		fields = append(fields, Field{Name: "after", Type: prim("int32")})
+		d := &Def{Kind: "struct", Name: "Rec", ReadOnly: cx == "rostruct", Fields: fields}
+		p := &Pkg{Schema: &Schema{Defs: []*Def{d}}, Leaf: "guid", Ctor: "wide", Context: cx}
+		p.Shape = "17 guid fields (272 bytes of fixed-size fields in a row) in a " + cx
 		out = append(out, p)
 	}
 	for i, p := range out {
